@@ -153,3 +153,48 @@ fn post_drain(&mut self, disconnected: bool, clear_readiness: bool, action: Post
             && crate::rustix::io::w_write_called(old(self).ping.raw(), crate::sources::ping::eventfd::ne_bytes(2)),
 //@ endslice
 }
+
+//@ region channel_src_spec props=C16,C07,C15
+impl<T> Channel<T> {
+    /// the ping source the channel is registered through (ghost)
+    pub closed spec fn src(&self) -> PingSource { self.source }
+}
+//@ endregion
+// C16/C07/C15: a Channel is registered, re-registered and unregistered exactly as its PingSource is (the three functions are
+// whole items; process_events is signature-only here: its parts are the two slices above)
+//@ open src/sources/channel.rs / impl EventSource for Channel<T>
+//@ item src/sources/channel.rs / impl EventSource for Channel<T> / type Event props=C16,C07,C15
+//@ enditem
+//@ item src/sources/channel.rs / impl EventSource for Channel<T> / type Metadata props=C16,C07,C15
+//@ enditem
+//@ item src/sources/channel.rs / impl EventSource for Channel<T> / type Ret props=C16,C07,C15
+//@ enditem
+//@ item src/sources/channel.rs / impl EventSource for Channel<T> / type Error props=C16,C07,C15
+//@ enditem
+//@ region channel_protocol props=C16,C07,C15
+    // as far as registration goes the source IS its ping source (whose registration is that of its Generic<eventfd>)
+    open spec fn wf(&self) -> bool { self.src().wf() }
+    open spec fn registered(&self) -> bool { self.src().registered() }
+    open spec fn register_req(&self) -> bool { self.src().register_req() }
+    open spec fn register_ens(o: &Self, n: &Self, ok: bool) -> bool { PingSource::register_ens(&o.src(), &n.src(), ok) }
+    open spec fn reregister_req(&self) -> bool { self.src().reregister_req() }
+    open spec fn reregister_ens(o: &Self, n: &Self, ok: bool) -> bool { PingSource::reregister_ens(&o.src(), &n.src(), ok) }
+    open spec fn unregister_req(&self) -> bool { self.src().unregister_req() }
+    open spec fn unregister_ens(o: &Self, n: &Self, ok: bool) -> bool { PingSource::unregister_ens(&o.src(), &n.src(), ok) }
+    open spec fn process_req(&self) -> bool { self.src().process_req() }
+    open spec fn may_call(&self, readiness: Readiness, token: Token, e: Event<T>) -> bool { true }
+    open spec fn cb_req<CbF: FnMut(Event<T>, &mut ())>(&self, readiness: Readiness, token: Token, callback: CbF) -> bool { true }
+    open spec fn process_ens(o: &Self, n: &Self, readiness: Readiness, token: Token, r: Result<PostAction, ChannelError>) -> bool { true }
+//@ endregion
+//@ item src/sources/channel.rs / impl EventSource for Channel<T> / fn process_events props=C16,C07,C15 sigonly
+//@ rw R8 1 <<process_events<C>>> => <<process_events<CbF>>>
+//@ rw R8 1 <<mut callback: C,>> => <<mut callback: CbF,>>
+//@ rw R8 1 <<C: FnMut(Self::Event>> => <<CbF: FnMut(Self::Event>>
+//@ enditem
+//@ item src/sources/channel.rs / impl EventSource for Channel<T> / fn register props=C16,C07,C15
+//@ enditem
+//@ item src/sources/channel.rs / impl EventSource for Channel<T> / fn reregister props=C16,C07,C15
+//@ enditem
+//@ item src/sources/channel.rs / impl EventSource for Channel<T> / fn unregister props=C16,C07,C15
+//@ enditem
+//@ close
